@@ -22,6 +22,11 @@ import copy
 import os
 from typing import Dict, List, Optional, Set, Tuple
 
+
+def dotted(e) -> Optional[str]:
+    from .model import dotted as _d
+    return _d(e)
+
 _KNOWN: Optional[Set[str]] = None
 
 
@@ -119,6 +124,54 @@ def _propagate_copies(fn: ast.AST) -> None:
             for fld in ("body", "orelse", "finalbody"):
                 sub = getattr(st, fld, None)
                 if isinstance(sub, list) and sub and isinstance(sub[0], ast.stmt):
+                    do_block(sub)
+            for h in getattr(st, "handlers", []) or []:
+                do_block(h.body)
+            k += 1
+    do_block(fn.body)
+
+
+def _sink_temp_copies(fn: ast.AST) -> None:
+    """`if c: t = a  else: t = b` directly followed by `x = t`, t an expansion temporary read nowhere else: the branches store to x
+    themselves (`x = a` / `x = b`); a resulting `x = x` is dropped.  (The result variable of an expanded helper with early returns.)"""
+    loads: Dict[str, int] = {}
+    for n in ast.walk(fn):
+        if isinstance(n, ast.Name) and isinstance(n.ctx, ast.Load):
+            loads[n.id] = loads.get(n.id, 0) + 1
+
+    def ends_with_store(block, t) -> bool:
+        if not block:
+            return False
+        last = block[-1]
+        if isinstance(last, ast.Assign) and len(last.targets) == 1 and isinstance(last.targets[0], ast.Name) and last.targets[0].id == t:
+            return True
+        if isinstance(last, ast.If):
+            return bool(last.orelse) and ends_with_store(last.body, t) and ends_with_store(last.orelse, t)
+        return False
+
+    def retarget(block, t, x) -> None:
+        last = block[-1]
+        if isinstance(last, ast.Assign):
+            if isinstance(last.value, ast.Name) and last.value.id == x:
+                block[-1] = ast.copy_location(ast.Pass(), last)
+            else:
+                last.targets = [ast.Name(id=x, ctx=ast.Store())]
+            return
+        retarget(last.body, t, x)
+        retarget(last.orelse, t, x)
+
+    def do_block(block) -> None:
+        k = 0
+        while k < len(block):
+            st = block[k]
+            if k >= 1 and isinstance(st, ast.Assign) and len(st.targets) == 1 and isinstance(st.targets[0], ast.Name) and isinstance(st.value, ast.Name) \
+                    and st.value.id.startswith("__inl") and loads.get(st.value.id) == 1 and isinstance(block[k - 1], ast.If) and ends_with_store([block[k - 1]], st.value.id):
+                retarget([block[k - 1]], st.value.id, st.targets[0].id)
+                del block[k]
+                continue
+            for fld in ("body", "orelse", "finalbody"):
+                sub = getattr(st, fld, None)
+                if isinstance(sub, list) and sub and isinstance(sub[0], ast.stmt) and not isinstance(st, (ast.FunctionDef, ast.ClassDef)):
                     do_block(sub)
             for h in getattr(st, "handlers", []) or []:
                 do_block(h.body)
@@ -496,6 +549,35 @@ class Inliner:
         sentinel = ast.copy_location(ast.Assign(targets=[ast.Name(id=v, ctx=ast.Store())], value=ast.Call(func=ast.Name(id="object", ctx=ast.Load()), args=[], keywords=[])), st)
         init = self.prog.lookup_method(ci, "__init__")
         out: List[ast.stmt] = [sentinel]
+        if init is None or init.cls is None or not init.cls.qualname.startswith("pygradflow"):
+            # a @dataclass without its own __init__: the fields are the annotated class attributes, in order, with their defaults
+            is_dc = any((dotted(d.func) if isinstance(d, ast.Call) else dotted(d)) in ("dataclass", "dataclasses.dataclass") for d in ci.node.decorator_list)
+            fields = [x for x in ci.node.body if isinstance(x, ast.AnnAssign) and isinstance(x.target, ast.Name)]
+            if is_dc:
+                given = {}
+                for i_, a in enumerate(val.args):
+                    if isinstance(a, ast.Starred) or i_ >= len(fields):
+                        return None
+                    given[fields[i_].target.id] = a
+                for kw in val.keywords:
+                    if kw.arg is None or kw.arg in given or kw.arg not in {f_.target.id for f_ in fields}:
+                        return None
+                    given[kw.arg] = kw.value
+                for f_ in fields:
+                    v_ = given.get(f_.target.id, f_.value)
+                    if v_ is None:
+                        return None
+                    if isinstance(v_, ast.Call) and dotted(v_.func) in ("field", "dataclasses.field"):
+                        df = next((k.value for k in v_.keywords if k.arg == "default_factory"), None)
+                        dv = next((k.value for k in v_.keywords if k.arg == "default"), None)
+                        if df is not None:
+                            v_ = ast.Call(func=copy.deepcopy(df), args=[], keywords=[])
+                        elif dv is not None:
+                            v_ = dv
+                        else:
+                            return None
+                    out.append(ast.copy_location(ast.Assign(targets=[ast.Attribute(value=ast.Name(id=v, ctx=ast.Load()), attr=f_.target.id, ctx=ast.Store())],
+                                                            value=copy.deepcopy(v_)), st))
         if init is not None and init.cls is not None and init.cls.qualname.startswith("pygradflow"):
             b = self._bind(init, val, True)
             if b is None or _has_inner_return(_strip_doc(init.node.body)):
@@ -792,6 +874,12 @@ class Inliner:
             self._current_module = fi.module
             self.objs = {}
             new.body = self.expand_block(fi, new.body, 0)
+            # a helper's tuple result that is only splatted into another helper's call (`n = _norms(..); self._f(.., *n)`): spell the
+            # call with the elements and expand once more
+            from .model import _SplitTupleAssign as _STA, _splat_literal_tuples, _dissolve_records_in as _DRI
+            _DRI(ast.Module(body=[new], type_ignores=[]))
+            if _splat_literal_tuples(ast.Module(body=[new], type_ignores=[])):
+                new.body = self.expand_block(fi, new.body, 0)
             objs = self._find_objs(fi, new.body)
             if objs:
                 self.objs = objs
@@ -810,6 +898,7 @@ class Inliner:
                 _dissolve_records_in(ast.Module(body=[new], type_ignores=[]))
                 new = _SplitTupleAssign().visit(new)
                 _propagate_copies(new)
+                _sink_temp_copies(new)
                 from .model import _sink_returns
                 _sink_returns(ast.Module(body=[new], type_ignores=[]))
                 ast.fix_missing_locations(new)
